@@ -72,6 +72,7 @@ fn strategy(_t: Tier) -> impl Strategy<Value = Case> {
         2 => any::<u64>().prop_map(AtomChange::Random),
         1 => Just(AtomChange::Zero),
         1 => Just(AtomChange::Neighbour),
+        1 => Just(AtomChange::SmallOrder),
     ];
     let pv = prop_oneof![
         3 => (any::<u16>(), delta_spec()).prop_map(|(i, d)| ParamVar::Changed(i, d)),
@@ -283,7 +284,7 @@ fn compare(rec: &Rec, what: &str, lib: Option<bool>, reference: Option<bool>, ex
     if let Some(e) = expect {
         ensure!(
             ref_acc == e,
-            "harness/reference-disagrees-with-construction",
+            if what == "honest" { format!("C11/{:?}/honest-proof-does-not-satisfy-relation", kind) } else { "harness/reference-disagrees-with-construction".to_string() },
             "{}: reference relation says {}, construction expects {} ({:?} N={})",
             what,
             ref_acc,
